@@ -187,7 +187,7 @@ def lex(s):
     return toks
 
 
-NAMES = ["my name", "Baker's yeast", "5'-AMP", "D:\\samples\\run7", 'the "good" batch', "two\nlines", "caf\u00e9 au lait", "50% w/w"]
+NAMES = ["", "my name", "Baker's yeast", "5'-AMP", "D:\\samples\\run7", 'the "good" batch', "two\nlines", "caf\u00e9 au lait", "50% w/w"]
 
 
 def observe_print(arg):
@@ -221,7 +221,10 @@ def observe_print(arg):
         try:
             nm = NAMES[it["id"] % len(NAMES)] if isinstance(it["id"], int) else "my name"
             n = P.formula(f, name=nm)
-            ev["nameok"] = (str(n) == nm) and (repr(n) == "formula('%s')" % nm)
+            if not nm:
+                n.name = nm            # a name field cleared by the caller
+            shown = nm if nm else s          # (an empty name is no name: the formula prints its atoms)
+            ev["nameok"] = (str(n) == shown) and (repr(n) == "formula('%s')" % shown)
         except Exception:
             ev["nameok"] = False
         out.append(ev)
@@ -297,7 +300,7 @@ def observe_hill(arg):
 
 # ---- C02: pool histories ----------------------------------------------------
 BASE_BAGS = {"CH4": [(1, 1), (2, 4)], "H2O": [(2, 2), (3, 1)], "Fe3O4": [(4, 1), (5, 2), (3, 4)], "D2O18": [(7, 2), (6, 1)],
-             "hydrate": None, "zero": None, "half": [(2, 0.5), (3, 1.5)], "H": [(2, 1)]}
+             "hydrate": None, "zero": None, "empty": None, "half": [(2, 0.5), (3, 1.5)], "H": [(2, 1)]}
 
 
 class InitializerChanged(Exception):
@@ -321,6 +324,14 @@ def _base(how, b, ats, T):
         if how == "gen":      # one-shot iterables, nested
             return P.formula(iter([(1, A(1)), (3, A(3)), (6, ((c, a) for c, a in [(2, A(2)), (1, A(3))]))]))
         return P.formula([(1, A(1)), (3, A(3)), (6, [(2, A(2)), (1, A(3))])])
+    if b == "empty":
+        if how == "str":
+            return P.formula("", table=tab)
+        if how == "dict":
+            return P.formula({})
+        if how == "gen":
+            return P.formula(iter(()))
+        return P.formula([])
     if b == "zero":           # C O0 H2: a member with count zero contributes nothing
         if how == "str":
             ztxt = ["0.0", "0.", ".0", "0.00"][variant]
